@@ -8,3 +8,4 @@ import LLBuild.Props.C01Gen
 import LLBuild.Props.EngineImplSound
 import LLBuild.Props.EngineImplSched2
 import LLBuild.Props.EngineImplSched3
+import LLBuild.Props.EngineImplSched5
